@@ -53,7 +53,33 @@ def to_type(b, t):
 	raise ValueError(t)
 
 
+def run_history(case):
+	"""a sequence of calls, some of which fail part-way (non-ASCII text after valid sequences): every successful
+	call must still return exactly its own signature"""
+	from gambit.kmers import KmerSpec
+	from gambit.sigs.calc import calc_signature
+	k, prefix = int(case['k']), bytes(case['prefix'])
+	ks = KmerSpec(k, prefix)
+	results = []
+	for step in case['steps']:
+		seqs = [list(s) for s in step['seqs']]
+		args = [to_type(s, step.get('type', 'bytes')) for s in seqs]
+		if step.get('fail'):
+			args = args + ['AT\u00e9CG']          # a str that cannot be encoded as ASCII
+		try:
+			res = calc_signature(ks, args)
+			act = list(map(int, res))
+		except UnicodeEncodeError:
+			act = 'UnicodeEncodeError'
+		exp = 'UnicodeEncodeError' if step.get('fail') else spec_signature(k, prefix, seqs)
+		results.append((exp, act))
+	ok = all(e == a for e, a in results)
+	return {'ok': bool(ok), 'expected': [e for e, _ in results], 'actual': [a for _, a in results]}
+
+
 def run_case(case):
+	if case.get('kind') == 'history':
+		return run_history(case)
 	import numpy as np
 	from gambit.kmers import KmerSpec
 	from gambit.sigs.calc import calc_signature, ArrayAccumulator, SetAccumulator
@@ -84,6 +110,15 @@ def cases(tier, seed):
 		for n in range(0, 6 if tier == 'quick' else 7):
 			for t in itertools.product(b'ACGT', repeat=n):
 				yield {'k': k, 'prefix': list(prefix), 'seqs': [list(t)], 'type': 'bytes'}
+	# histories: calls that fail part-way must not influence later calls (k below and above the accumulator switch)
+	for i in range(40 if tier == 'quick' else 400):
+		k = rnd.choice([2, 3, 12])
+		prefix = _rand_seq(rnd, rnd.choice([1, 2]), b'AT')
+		steps = []
+		for _ in range(rnd.randrange(2, 5)):
+			seqs = [_rand_seq(rnd, rnd.randrange(5, 80), b'ACGT' if k < 12 else b'AT') for _ in range(rnd.randrange(1, 3))]
+			steps.append({'seqs': seqs, 'type': rnd.choice(['bytes', 'str']), 'fail': rnd.random() < .4})
+		yield {'kind': 'history', 'k': k, 'prefix': prefix, 'steps': steps}
 	alphas = [b'ACGT', b'ACGTN', b'ACGTacgtNn-', b'AT', b'ATat', bytes(range(256))]
 	N = 1500 if tier == 'quick' else 40000
 	for i in range(N):
